@@ -62,6 +62,9 @@ def slotted(  # noqa: C901
     """
 
     def _slots_setstate(self, state):
+        # A subclass with a `__dict__` and no filled slots hands over the plain dict.
+        if not isinstance(state, tuple):
+            state = (state,)
         for param_dict in filter(None, state):
             for slot, value in param_dict.items():
                 object.__setattr__(self, slot, value)
